@@ -54,6 +54,9 @@ Effect(e) ==
 LostWakeupSig(e) == /\ e.a = "Quiesce" /\ e.mode = "waiter" /\ e.peek
                     /\ e.cg = "cond.wake" /\ ~e.cen /\ ~e.cancelled /\ e.liveAtRidx
                     /\ e.pbwoke = 0
+                    /\ e.cptr = 0     \* the consumer has not touched a ring slot since that message arrived: it looked BEFORE, found
+                                      \* nothing, and parked. A consumer that looked at the slot while the message was there and
+                                      \* parked all the same (a failed CAS taken for "empty") is something else
 \* a Close that returns while a returned Write has been neither delivered nor reported: that message will never reach
 \* the wrapped writer - the first sentence of C12 as well as the accounting clause of C11
 Undelivered(e) == e.a = "CloseRet" /\ Len(delivered) + alerts < Cardinality(returned)
